@@ -916,6 +916,18 @@ def dma_long_block_programs():
         # machine cycles of the first two blocks: NOP ; JP  and  LD A,n ; LDH (n),A ; NOP x nops ; HALT
         sc["expect_cpu"] = [5, 2 + 3 + nops + 1]
         out.append(sc)
+    # long runs with the timer stopped (the power-on state): the divider wraps after 16384 machine cycles and the LCD
+    # position after 17556; blocks of 250 NOPs closed by a jump back, and the same as a tight two-instruction loop
+    for i, nops in enumerate([250, 0]):
+        a = Asm(0x150)
+        a.label("L")
+        for _ in range(nops): a.emit(0x00)
+        a.emit(0x0C); a.jp(0xC3, "L")
+        steps = 100 if nops else 9000
+        sc = scenario(9800100 + i, [(0x100, [0x00, 0xC3, 0x50, 0x01]), (a.org, a.resolve())], cpu(pc=0x100, sp=0xFFFE), steps,
+                      mode="block", cart=(0, 0, 2), romfill=0)
+        sc["expect_cpu"] = [5] + [nops + 1 + 4] * 3
+        out.append(sc)
     return out
 
 
